@@ -90,7 +90,7 @@ CLAIMED = {
 EXTRA = {
     "C01": ("score_beats_threshold, the naive matcher's loop body, the decision loop, fp/fn/rq/pq and the phase program of panoptic_evaluate with the wiring of its calls", "beats_metric_ok, naive_loop_ok, decision_loop_ok, fp_ok, fn_ok, rq_ok, products_ok, phases_ok, wiring_ok, entry_ok"),
     "C02": ("the decision loop of evaluate_matched_instance, fp/fn/prec/rec/rq/pq* formulas and the sq* readers, score_beats_threshold, the guard / crop / metric calls of _evaluate_instance and the wiring of the evaluated pair", "instance_guard_ok, instance_eval_ok, instance_collect_ok, instance_result_ok, decision_loop_ok, fp_ok, fn_ok, prec_ok, rec_ok, rq_ok, products_ok, readers_ok, beats_metric_ok"),
-    "C03": ("score_beats_threshold (both classes), the naive matcher's loop body, the pair code of _calc_overlapping_labels (width, masked side, filter, decoding) and the fresh-label / dtype decisions of the relabelling", "beats_metric_ok, beats_impl_ok, naive_loop_ok, code_ok, keep_ok, decode_ok, acc_bits_ok, masked_ok, fit_ok, fresh_base_ok, fresh_kth_ok, missed_ok, table_ok; plus uniqueness of the greedy matching on tie-free input (C03Unique.unique)"),
+    "C03": ("score_beats_threshold (both classes), the naive matcher's loop body, the pair code of _calc_overlapping_labels (width, masked side, filter, decoding) and the fresh-label / dtype decisions of the relabelling", "beats_metric_ok, beats_impl_ok, naive_loop_ok, code_ok, keep_ok, decode_ok, acc_bits_ok, masked_ok, fit_ok, fresh_base_ok, fresh_kth_ok, missed_ok, table_ok; plus uniqueness of the greedy matching on tie-free input (C03Unique.unique) and of the many-to-one matching when no prediction has two equally good eligible candidates (C03UniqueM2O.unique_m2o)"),
     "C08": ("the zero-TP scenario if/elif chain the constructor of MetricZeroTPEdgeCaseHandling (own argument, else default_result) and the phase program of panoptic_evaluate (where the zero-instance step sits and what it is given)", "scenario_chain_ok, handler_ctor_ok, handler_entry_sem, handler_keys_ok, phases_ok, wiring_ok"),
     "C13": ("the scenario chain, the edge branch of _calc_global_bin_metric (guard, count arguments) the constructor of MetricZeroTPEdgeCaseHandling, and the crop bounds", "scenario_chain_ok, global_bin_call_ok, handler_ctor_ok, handler_entry_sem, handler_keys_ok, bbox_bounds_ok, paired_crop_ok"),
     "C14": ("the merge matcher's loop body incl. the improvement test and score bookkeeping, score_beats_threshold, the pair code of _calc_overlapping_labels", "merge_loop_ok, beats_metric_ok, code_ok, keep_ok, decode_ok, acc_bits_ok, masked_ok; the oracle's best-free-candidate clause is the theorem C14.final_at_least_best_free"),
